@@ -53,6 +53,30 @@ Theorem c11_order : forall c actors sched,
 Proof. exact c11_order_proof. Qed.
 Print Assumptions c11_order.
 
+(* one side-effects frame per logged mutating call of an actor: its frames are its ended logged calls
+   in the same order — all of them, except that the newest call's frame may still be pending while
+   the actor holds the permit; a frame comes after the End of its call; when the run ends
+   (IRunEnded) every ended call of the run has its frame already *)
+Theorem c11_one_side_effect_frame_per_call : forall c actors sched i,
+  wf_cfg c = true ->
+  (own i (ends_a (tr_of c actors sched)) = own i (frames (tr_of c actors sched))
+   \/ exists k, own i (ends_a (tr_of c actors sched)) = (i, k) :: own i (frames (tr_of c actors sched))
+                /\ holder (run (sys c actors) sched) = Some i)
+  /\ (forall k, In (i, IApp k) (tr_of c actors sched) ->
+        happens_before (i, IEnd k true true) (i, IApp k) (tr_of c actors sched))
+  /\ (forall l1 l2, tr_of c actors sched = l1 ++ (i, IRunEnded) :: l2 ->
+        own i (ends_a l2) = own i (frames l2)).
+Proof. exact c11_one_frame_proof. Qed.
+Print Assumptions c11_one_side_effect_frame_per_call.
+
+(* ... and every mutating tool call of a thread-attached session is a logged call *)
+Theorem c11_attached_calls_logged : forall c a k a',
+  wf_cfg c = true ->
+  (exists n, a = AEnv n true) \/ (exists ns, a = ALoop ns true) ->
+  In (IEnd k true a') (compile_actor c a) -> a' = true.
+Proof. exact attached_calls_logged. Qed.
+Print Assumptions c11_attached_calls_logged.
+
 (* every compiled actor obeys the discipline; observed traces accepted by [replay] are runs *)
 Theorem c11_compiled_disciplined : forall c a,
   wf_cfg c = true -> daccept DOut (compile_actor c a) = true.
